@@ -14,6 +14,7 @@ RULE = (
     "case = generated film (box / ellipse / union of boxes, optionally reversed or resampled, rotated, off-centre) x 0..2 holes (ellipse, box, "
     "L-shaped) x 0..4 terminals x max_edge_length x min_points x smoothing 0..30 x coherence length x optional history (device copied, the copy translated in place; the original or the moved copy is examined); every site, edge and triangle checked; "
     "non-trivial = >= 50 sites of which >= 60 % satisfy the local-Delaunay/unencroached predicate (so that their cells are asserted); distinct by spec hash"
+    "; one layout in four sits 2e4..6e4 coherence lengths from the coordinate origin; optional history Mesh.smooth() copy requested"
 )
 ASSUMPTIONS = [
     "a site's cell is asserted only if every edge of every triangle incident to it is locally Delaunay (opposite angles sum <= pi+1e-7) or, on the boundary, unencroached (opposite angle <= pi/2+1e-7), and the circumcircle of every incident triangle contains no other site, as the property states ('wherever the triangulation is locally Delaunay')",
